@@ -36,3 +36,50 @@ Definition live_ok (c : cfg) (s : fs) : Prop :=
   exists pl, fdata f = print_live (c_stream c) pl                      (* a complete playlist *)
     /\ Forall (fun sg => listed_seconds sg <= pl_target pl) (pl_segs pl)
     /\ Forall (seg_file_ok s) (pl_segs pl).
+
+(* ---- the end of a publication ---- *)
+Definition ended (c : cfg) (s : fs) : Prop :=
+  forall f, fs_lookup PLive s = Some f -> exists pl, fdata f = print_live (c_stream c) pl /\ pl_end pl = true.
+
+(* ---- what is written into segments, read off the operation sequence ---- *)
+(* frame data = every IFile.Write except the one that directly follows the Create of its file (the PAT/PMT);
+   the boolean is "the previous operation was a Create" *)
+Fixpoint fws (after_create : bool) (ops : list op) : list bytes * bool :=
+  match ops with
+  | [] => ([], after_create)
+  | OCreate _ :: t => fws true t
+  | OWrite _ b :: t => if after_create then fws false t else let '(l, st) := fws false t in (b :: l, st)
+  | _ :: t => fws false t
+  end.
+
+(* the frames the muxer has to store: in each publication, everything from the first boundary frame on *)
+Fixpoint accepted (alive opened : bool) (evs : list event) : list bytes :=
+  match evs with
+  | [] => []
+  | EvNew :: t => if alive then accepted alive opened t else accepted true false t
+  | EvFeed _ _ _ b _ pk :: t =>
+      if alive then (if opened || b then pk :: accepted true true t else accepted true false t)
+      else accepted alive opened t
+  | EvDispose :: t => accepted false false t
+  | _ :: t => accepted alive opened t
+  end.
+
+
+(* ---- segments are created in sequence; data only ever goes to the newest one ---- *)
+(* state: the file created last, and the id the next segment must have *)
+Fixpoint wrs (cur : option path) (next : Z) (ops : list op) : option (option path * Z) :=
+  match ops with
+  | [] => Some (cur, next)
+  | OMkdirAll _ :: t => wrs cur 0 t                      (* a new muxer starts *)
+  | OCreate (PTs now id) :: t => if id =? next then wrs (Some (PTs now id)) (next + 1) t else None
+  | OCreate _ :: t => None
+  | OWrite p _ :: t | OClose p :: t =>
+      match cur with Some q => if path_eqb p q then wrs cur next t else None | None => None end
+  | _ :: t => wrs cur next t
+  end.
+
+
+(* ---- how a segment starts ---- *)
+Definition is_create (o : op) : bool := match o with OCreate _ => true | _ => false end.
+Definition cur_discont (c : cfg) (m : mux) : bool := fi_discont (get_frag c m (m_nfrags m)).
+
